@@ -35,6 +35,20 @@ CHECKS = {
              "nothing left over.",
         technique="TLA+ contract (WireRule.tla: Intended commands, key legality) evaluated by TLC over recorded calls; independent strict wire parser",
         design_ref="4 C02", note=TRUST + " Data blocks are compared through (length, sha256) descriptors; numbers as decimal text (TLC integers are 32-bit)."),
+    "C03": dict(
+        category="model_checking",
+        text="(A) TLC checks the as-coded model of _readline/_readvalue/_readsegment/_recv (spec/Reader.tla, one action per loop iteration "
+             "and per recv) against the whole-stream reference of spec/ReaderRule.tla for every stream over {CR, LF, 'E', 'x'} up to 5 (thorough 7) "
+             "bytes, 12-18 read plans (lines, sized values, token segments with 2-6 byte tokens, fetch-shaped sequences with carry-over), "
+             "every segmentation into recv() results and EINTR positions. (B) The real reader functions are run over the same streams x "
+             "plans x every subset of cut positions (+EINTR) and each execution is validated by TLC against the reference (results and "
+             "carried-over rest). (C) 44 public-call scenarios (values containing CR LF / END / VALUE lines or ending in CR, multi-key, cas, "
+             "stats, every store/delete/incr/touch/version line, raw_command with three end tokens and near-miss payloads, the ElastiCache "
+             "config reply through the real constructor, values of 4094..4098, 8190..8194 and 12288 bytes) under all cut subsets for short "
+             "replies, all 1-/2-/sampled 3-cut and single-byte segmentations and 4096k+-{0,1,2} cuts for long ones: the result must equal the "
+             "one-piece result.",
+        technique="TLA+ model of the reader loops model-checked against a whole-stream reference; TLC trace validation of the real readers over all segmentations; differential public-call corpus",
+        design_ref="4 C03", note=TRUST),
     "C05": dict(
         category="model_checking",
         text="TLC explores the abstract cache (spec/Cache.tla over spec/CacheRule.tla: map with expiry classes and cas versions, the "
